@@ -120,6 +120,33 @@ def gen_rich_case(rng):
     return {"cfg": cfg, "script": script, "rich": True}
 
 
+def gen_long_queue_cases(sizes, positions, cfgs=("stock", "sched", "prio")):
+    """Deterministic, size-parametrised: a ready queue of n task handles and the target of a throw / interrupt at
+    every position `pos` from its tail (1 = last).  Variant A: task_throw from outside the loop on n never-started
+    tasks.  Variant B: an agent task (first in the queue) runs `await task_interrupt(target)` while the other n
+    handles are queued.  Both alternate the exception class with the position."""
+    out = []
+    for cfg in cfgs:
+        for n in sizes:
+            for pos in positions:
+                if pos > n:
+                    continue
+                cd = pos % 2
+                # A: throw from outside
+                script = [["create", "p", [["s"]], "all"] for _ in range(n)]
+                k = len(script)
+                script += [["throw", n - pos, cd], ["resume"]] + [["step"]] * 3
+                out.append({"cfg": cfg, "script": script, "no_obs_until": k})
+                # B: interrupt from a running agent; the agent's own handle is popped, n others are queued
+                target = 1 + (n - pos)
+                script = [["create", "p", [["i", target, cd], ["s"]], "all"]]
+                script += [["create", "p", [["s"]], "all"] for _ in range(n)]
+                k = len(script)
+                script += [["resume"]] + [["step"]] * 3
+                out.append({"cfg": cfg, "script": script, "no_obs_until": k})
+    return out
+
+
 def explore_rich(ctx, cases, label="oracle-only: "):
     return c09.explore_untraced(ctx, cases, kinds=C15_KINDS, label=label, expected=EXPECTED,
                                 theorem="Asynkit.C15.throw_exactly_once / interrupt_runs_next")
@@ -135,6 +162,9 @@ def run(ctx):
     corpus = c09.corpus_cases(PROP)
     explore(ctx, [c for c in corpus if not c.get("rich")], label="corpus: ")
     explore_rich(ctx, [c for c in corpus if c.get("rich")], label="corpus: ")
+    explore(ctx, gen_long_queue_cases(range(17, 41) if ctx.thorough() else (17, 24, 40), range(1, 21),
+                                      ("stock", "sched", "prio") if ctx.thorough() else ("stock", "sched")),
+            label="long queue: ")
     n = 2500 if ctx.thorough() else 200
     n_rich = 4000 if ctx.thorough() else 250
     batch = 100 if not ctx.thorough() else 500
